@@ -510,6 +510,9 @@ class Impl:
             for n in list(G._node) + [self.I(99)]:
                 c = C(n)
                 e = {}
+                if c == 99:
+                    per[str(c)] = {"hasnode": guard(lambda: 1 if G.has_node(n, t) else 0)}
+                    continue
                 e["nbrs"] = guard(lambda: sl(G.neighbors(n, t)))
                 e["nbrs_iter"] = guard(lambda: sl(G.neighbors_iter(n, t)))
                 e["f_nbrs"] = guard(lambda: sl(dn.neighbors(G, n, t)))
